@@ -176,12 +176,14 @@ type Mem struct {
 	tidTyp map[int64]types.Type
 	nonNil map[string]bool // terms known to be fresh object ids
 	sliceHook func(SliceV)
+	refKind map[string]bool
+	alloc0  Term
 }
 
 func NewMem(c *Ctx) *Mem {
 	c.DeclSort("Float")
 	c.DeclSort("Opaque")
-	return &Mem{c: c, heap0: map[string]Term{}, tids: map[string]int64{}, tidTyp: map[int64]types.Type{}, nonNil: map[string]bool{}}
+	return &Mem{c: c, heap0: map[string]Term{}, tids: map[string]int64{}, tidTyp: map[int64]types.Type{}, nonNil: map[string]bool{}, refKind: map[string]bool{}}
 }
 
 func (m *Mem) typeID(t types.Type) int64 {
@@ -204,7 +206,30 @@ func (m *Mem) comp(st *State, name string, sort Sort) Term {
 	}
 	t := m.c.Fresh(name, sort)
 	m.heap0[name] = t
+	if m.refKind[name] && m.alloc0.S != "" {
+		m.refAxiom(t, m.alloc0)
+	}
 	return t
+}
+
+// refAxiom states that every reference stored in component t designates an object allocated so far
+// (type safety of the heap; needed inside quantified contracts, where per-load typing facts are absent).
+func (m *Mem) refAxiom(t Term, alloc Term) {
+	vs := arrValSort(t.Sort)
+	if vs == SInt {
+		m.c.Raw(fmt.Sprintf("(assert (forall ((r Int)) (! (and (<= 0 (select %s r)) (< (select %s r) %s)) :pattern ((select %s r)))))", t.S, t.S, alloc.S, t.S))
+		return
+	}
+	if strings.HasPrefix(string(vs), "(Array ") && arrValSort(vs) == SInt {
+		ks := arrIdxSort(vs)
+		m.c.Raw(fmt.Sprintf("(assert (forall ((r Int) (k %s)) (! (and (<= 0 (select (select %s r) k)) (< (select (select %s r) k) %s)) :pattern ((select (select %s r) k)))))", ks, t.S, t.S, alloc.S, t.S))
+	}
+}
+
+func (m *Mem) markRef(name string, kind string) {
+	if kind == "ptr" || kind == "arr" || kind == "ref" {
+		m.refKind[name] = true
+	}
 }
 
 func compName(p PtrV, leafPath string) (string, bool) {
@@ -236,6 +261,7 @@ func (m *Mem) compSort(isArr bool, leaf Sort) Sort {
 // loadLeaf reads one scalar leaf at pointer p (+leaf path).
 func (m *Mem) loadLeaf(st *State, p PtrV, lf Leaf) Term {
 	name, isArr := compName(p, lf.Path)
+	m.markRef(name, lf.Kind)
 	comp := m.comp(st, name, m.compSort(isArr, lf.Sort))
 	var cell Term
 	if isArr {
@@ -253,6 +279,7 @@ func (m *Mem) loadLeaf(st *State, p PtrV, lf Leaf) Term {
 
 func (m *Mem) storeLeaf(st *State, p PtrV, lf Leaf, v Term) {
 	name, isArr := compName(p, lf.Path)
+	m.markRef(name, lf.Kind)
 	comp := m.comp(st, name, m.compSort(isArr, lf.Sort))
 	var n Term
 	if isArr {
